@@ -19,7 +19,7 @@ Inductive opk := OBegin | OPrepIns | OIns | OPrepSel | OSel | OPrepUpd | OUpd | 
 
 Inductive pcT :=
 | PcBegin | PcPrepIns (s : status) (then_skip : bool) | PcIns (s : status) (then_skip : bool) | PcPrepSel | PcSel
-| PcPrepUpd (s : status) | PcUpd (s : status) | PcBiz | PcCommit | PcRollback | PcDone
+| PcPrepUpd (s : status) | PcUpd (s : status) | PcBiz | PcBiz2 | PcCommit | PcRollback | PcDone
 | PcBeginB | PcCommitB.     (* proxy-driver mode only: the second (fence) transaction *)
 
 Definition ostatus_eqb (a b : option status) : bool :=
@@ -223,8 +223,17 @@ Definition step (drv prep : bool) (tid : bool) (t : thread) (sh : shared) : thre
                else (fail t1 ERefused PcRollback, sh1)
            | _, _ => (fail t1 ERefused PcRollback, sh1)
            end
+  (* the business step is a LIST of statements (two counter rows that must move together); a failure of
+     any of them - of whatever kind: generic, lock wait timeout 1205, deadlock 1213, bad connection - fails
+     the delivery and nothing of it may become durable.  The callback is entered once.  (In the race,
+     prep = false, the business step is one statement: the scheduling points stay the row / lock operations.) *)
   | PcBiz =>
       let f := faulted t in let t1 := tick (inc_ran t) OBiz in
+      if f then (fail t1 EFault PcRollback, sh)
+      else if prep then (set_pc t1 PcBiz2, sh)
+      else (set_pc (set_weff t1) PcCommit, sh)
+  | PcBiz2 =>
+      let f := faulted t in let t1 := tick t OBiz in
       if f then (fail t1 EFault PcRollback, sh) else (set_pc (set_weff t1) PcCommit, sh)
   | PcCommit =>
       let f := faulted t in let t1 := tick t OCommit in
